@@ -40,7 +40,7 @@ func (c12) Batches(tier string, seed uint64) []core.Batch {
 }
 
 func (c12) Mandatory(tier string) []string {
-	m := []string{"stream:writer", "stream:reader", "stream:single-writer", "stream:single-reader", "stream:source-data+EOF", "stream:source-onebyte", "stream:source-chunks", "stream:zero-length-chunk", "stream:unknown-algorithm-rejected", "stream:subset-size-0",
+	m := []string{"stream:writer", "stream:reader", "stream:single-writer", "stream:single-reader", "stream:entry-sum-entry-sum", "stream:source-data+EOF", "stream:source-onebyte", "stream:source-chunks", "stream:zero-length-chunk", "stream:unknown-algorithm-rejected", "stream:subset-size-0",
 		"stream:subset-size-4", "stream:repeated-algorithm", "stream:len-0", "stream:len>=4096",
 		"prov:best-sha256", "prov:best-sha512", "prov:best-both", "prov:dsc-sha256", "prov:sources-sha256", "prov:dsc-md5", "prov:dsc-sha1"}
 	for _, a := range c12Algos {
@@ -180,6 +180,24 @@ func (p c12) stream(c *core.C, cs c12Stream) {
 		}
 		if !bytes.Equal(buf.Bytes(), data) {
 			c.Failf("hashing writer altered or lost bytes: %d in, %d out", len(data), buf.Len())
+		}
+		if cs.Seed%2 == 0 {
+			check("NewHasherWriters", hs, cs.Algos, false)
+		}
+		// building entries from a hasher must not disturb it: entry, Sum, entry, Sum
+		// (for half of the cases this is the first thing that happens after the last write)
+		for i, h := range hs {
+			want := hex.EncodeToString(digest(cs.Algos[i], data))
+			for round := 0; round < 2; round++ {
+				fh := control.FileHashFromHasher("f", *h)
+				if fh.Hash != want || fh.Size != int64(len(data)) || fh.Algorithm != cs.Algos[i] {
+					c.Failf("FileHashFromHasher (call %d) on a %s hasher of a %d-byte stream gives hash %s size %d; want %s size %d", round+1, cs.Algos[i], len(data), fh.Hash, fh.Size, want, len(data))
+				}
+				if got := hex.EncodeToString(h.Sum(nil)); got != want {
+					c.Failf("%s Sum after FileHashFromHasher (round %d) = %s, want %s", cs.Algos[i], round+1, got, want)
+				}
+			}
+			c.Cover("stream:entry-sum-entry-sum")
 		}
 		check("NewHasherWriters", hs, cs.Algos, false)
 		c.Cover("stream:writer")
